@@ -28,7 +28,7 @@ from harness import core
 LEVEL = "model_checking"
 MODES = ("condense_all", "merge_across", "matrix_merge")
 
-QUICK_CFGS = ["two", "kinds3", "pol2", "files2", "seq3", "seqk2", "seqf2", "set2"]
+QUICK_CFGS = ["two", "kinds2", "pol2", "files2", "seq3", "seqk2", "seqf2", "set2"]
 THOROUGH_CFGS = ["two", "kinds4", "pol3", "files3", "files4", "seq4", "seqk3", "seqf3", "set3"]
 
 
@@ -329,7 +329,7 @@ def run(ctx):
         if len(case["files"]) >= 2:
             jobs.append((idx, case, "lib"))
         if ctx.quick:
-            cli = case["cfg"] in ("two", "files2") or rng.random() < (0.5 if case["cfg"].startswith("se") else 0.35)
+            cli = case["cfg"] in ("two", "files2") or rng.random() < (0.5 if case["cfg"].startswith("se") else 0.25)
         else:
             cli = case["cfg"] in ("two", "files3", "files4") or rng.random() < 0.5
         if cli:
